@@ -8,6 +8,7 @@ import (
 	"io"
 	"os"
 	"os/exec"
+	"path/filepath"
 	"strconv"
 	"strings"
 	"time"
@@ -504,7 +505,9 @@ func (s *Solver) fallback(extra []*Term) string {
 		q.WriteString("))\n")
 	}
 	if s.tmpDir == "" {
-		d, err := os.MkdirTemp("", "vchk-fb")
+		work := filepath.Join(verifDir(), ".work")
+		os.MkdirAll(work, 0o755)
+		d, err := os.MkdirTemp(work, "fb-")
 		if err != nil {
 			return "unknown"
 		}
